@@ -83,6 +83,11 @@ def arith(interp, op, a, b):
         if len(names) == 1 and next(iter(names)).startswith('sub:') and k:
             interp.trace.append(('frac-div', next(iter(names))[4:], k))
             return bv_field('fractional', 8)
+    if op in ('Mul', 'MulWithOverflow') and a[0] == 'sym' and a[1][0] == 'mul' and b[0] == 'bv' and all(x in (0, 1) for x in b[1]):
+        # (fraction x 4) x 1 000 000: one multiplication by the product
+        k2 = sum(bit << i for i, bit in enumerate(b[1]))
+        v = ('sym', ('mul', a[1][1], a[1][2] * k2))
+        return ('tuple', [Cell(v), Cell(('bool', False))]) if op.endswith('WithOverflow') else v
     if op in ('Mul', 'MulWithOverflow') and a[0] == 'bv' and b[0] == 'bv':
         k = sum(bit << i for i, bit in enumerate(b[1]) if bit in (0, 1)) if all(x in (0, 1) for x in b[1]) else None
         if k:
@@ -218,6 +223,12 @@ def check_layout(ctx, facts, rule):
         _tag, unit, k = next(iter(divs))
         secs_ok = back.get('secs') == bv_field('seconds', 32)[1]
         part = back.get(unit)
+        NS = {'millis': 1000000, 'micros': 1000, 'nanos': 1}
+        if part is None and len(back) == 2:
+            # the two directions may count the fraction in different units (millis / 4 one way, x 4 000 000 nanos the other): the same step
+            for u2, p2 in back.items():
+                if u2 in NS and p2[1] * NS[u2] == k * NS[unit]:
+                    part = (p2[0], k)
         frac_ok = part is not None and part[1] == k and tuple(part[0]) == bv_field('fractional', 8)[1]
         good = secs_ok and frac_ok and len(back) == 2
         detail = 'packing divides the sub-second %s by %d; reading back gives %s' % (unit, k, {kk: ('seconds' if kk == 'secs' else 'fraction x %s' % v[1]) for kk, v in back.items()})
